@@ -632,12 +632,29 @@ def flow_states(body, facts, init, on_call, on_edge, max_configs=200000, on_bloc
         for s in blk["s"]:
             if s[0] == "=" and len(s[1]) == 1:
                 rv = s[2]
+                dst = s[1][0]
+                for k_ in [k_ for k_ in env if isinstance(k_, tuple) and k_[0] == dst]:
+                    env.pop(k_, None)
                 if rv[0] == "use" and rv[1][0] == "k" and rv[1][1] == "bool" and rv[1][2] in (0, 1, True, False):
-                    env[s[1][0]] = 1 if rv[1][2] in (1, True) else 0
+                    env[dst] = 1 if rv[1][2] in (1, True) else 0
+                elif rv[0] == "agg" and rv[1][0] == "tuple":
+                    # `(x, true)`: a flag travelling in a tuple (`let (a, flag) = match .. { A => (.., true), B => (.., false) }`)
+                    env.pop(dst, None)
+                    for i_, o_ in enumerate(rv[2]):
+                        if o_[0] == "k" and o_[1] == "bool" and o_[2] in (0, 1, True, False):
+                            env[(dst, i_)] = 1 if o_[2] in (1, True) else 0
+                elif rv[0] == "use" and rv[1][0] in ("c", "m") and len(rv[1][1]) == 2 and isinstance(rv[1][1][1], list) \
+                        and rv[1][1][1][0] == "." and (rv[1][1][0], rv[1][1][1][1]) in env:
+                    env[dst] = env[(rv[1][1][0], rv[1][1][1][1])]
+                elif rv[0] == "use" and rv[1][0] in ("c", "m") and len(rv[1][1]) == 1 and rv[1][1][0] in env \
+                        and body.locals[dst] == "bool":
+                    env[dst] = env[rv[1][1][0]]
                 else:
-                    env.pop(s[1][0], None)
+                    env.pop(dst, None)
             elif s[0] == "=" and s[1]:
                 env.pop(s[1][0], None)
+                for k_ in [k_ for k_ in env if isinstance(k_, tuple) and k_[0] == s[1][0]]:
+                    env.pop(k_, None)
         t = blk["t"]
         if t["k"] == "call":
             if t.get("dest"):
